@@ -1,6 +1,7 @@
 (* Lifecycle_driver.ml — correspondence driver for the life-cycle machine (C06).
    stdin: one case per line   <mode>|<op> <op> ...      (mode is for the C harness only)
      ops:  n<id> b<id>   new managed plain / Box        N<id> B<id>  new_root      w<id> W<id>  new_raw
+           k<id>,<src>  copy of <src> (a new managed plain object)
            optional  :<m>,<m>,..   marks used if the allocation triggers a threshold collection
            l<b>,<o>  the Box b now owns o     l<b>,-  cleared
            d<id> del    D<id> del_root   x<id> del_raw
@@ -36,6 +37,8 @@ let parse_op s : (ev * bool) option =
   (* a<id>+c+c / q<id>+c+c : managed / raw object whose destructor allocates; the model has no
      such objects (the correspondence skips these cases), the specification treats them as plain *)
   let body = match String.index_opt body '+' with Some i -> String.sub body 0 i | None -> body in
+  (* k<id>,<src> : copy = a new managed plain object *)
+  let body = if body.[0] = 'k' then (match String.index_opt body ',' with Some i -> "n" ^ String.sub body 1 (i - 1) | None -> body) else body in
   let rest = String.sub body 1 (String.length body - 1) in
   let order, marks', observed = match obs with
     | Some o -> let (a, b) = parse_obs o in a, b, true
